@@ -321,7 +321,7 @@ def generate(rng, tier):
             m = rng.randint(2, 5)
             vt = fam_mod.base_vtype(f.vtype)
             prof = fam_mod.gen_profile(rng, f.vtype, m)
-            mirror = fam_mod.rename(vt, prof, swap(m))
+            mirror = fam_mod.rename(vt, prof, swap(max(fam_mod.candidates_of(vt, prof) + [m - 1]) + 1))
             merged = {}
             for b, w in prof + mirror:
                 k = json.dumps(b)
